@@ -398,3 +398,228 @@ theorem streams_blocked_no_panic_partial (r : Remote CtrlSt) (d : Dir) (v : Nat)
 example : (Remote.new .client 1 1 CtrlSt.demand).poisoned = false ∧ (5 : Nat) < VARINT_MAX := by decide
 
 end GmQuic.Sid
+
+namespace GmQuic.StreamRules
+open GmQuic.Sid GmQuic.Spec.Rfc9000Streams
+open GmQuic.StreamWindow (RecvHalf RxObs Phase)
+
+/-! ## 4. Stream direction -/
+
+/-- **direction_table_is_rfc**: the gate of `recv_data` / `recv_stream_control` answers STREAM_STATE_ERROR
+exactly where RFC 9000 §19.4/5/8/10/13 (via §2.1/§3) demands it; otherwise peer-initiated ids go through
+`try_accept_sid` and locally initiated ones fall through. -/
+theorem direction_table_is_rfc (k : FrameKind) (peerInit : Bool) (d : Dir) :
+    codeGate k peerInit d =
+      if directionOk k peerInit d then (if peerInit then .accept else .pass) else .streamState := by
+  cases k <;> cases peerInit <;> cases d <;> rfl
+
+/-- A frame on the wrong kind of stream is answered with STREAM_STATE_ERROR before anything else happens
+(no stream is created, no limit is consulted) — for every endpoint state. -/
+theorem direction_enforced (e : Endpoint) (k : FrameKind) (s a b : Nat) (fin : Bool)
+    (h : directionOk k (sidRole s != e.role) (sidDir s) = false) :
+    e.step (.frame k s a b fin) = (e, .err .streamState) := by
+  have := direction_table_is_rfc k (sidRole s != e.role) (sidDir s)
+  rw [h] at this
+  simp only [Endpoint.step, this]
+  rfl
+
+example : directionOk .stream false .uni = false ∧ directionOk .stopSending true .uni = false := by decide
+
+theorem deliver_not_streamState (e : Endpoint) (ms : List (Dir × Nat)) (k : FrameKind) (s a b : Nat) (fin : Bool) :
+    (e.deliver ms k s a b fin).2 ≠ .err .streamState := by
+  unfold Endpoint.deliver
+  repeat' split
+  all_goals (try simp only [apply_ite Prod.snd])
+  all_goals (try split)
+  all_goals simp
+
+/-- … and a frame that is legal on its stream type is never answered with STREAM_STATE_ERROR. -/
+theorem direction_no_false_alarm (e : Endpoint) (k : FrameKind) (s a b : Nat) (fin : Bool)
+    (h : directionOk k (sidRole s != e.role) (sidDir s) = true) :
+    (e.step (.frame k s a b fin)).2 ≠ .err .streamState := by
+  have := direction_table_is_rfc k (sidRole s != e.role) (sidDir s)
+  rw [h] at this
+  simp only [Endpoint.step, this]
+  cases hp : (sidRole s != e.role)
+  · simp only [Bool.false_eq_true, if_false, if_true]
+    exact deliver_not_streamState _ _ _ _ _ _ _
+  · simp only [if_true]
+    split
+    · simp
+    · simp
+    · exact deliver_not_streamState _ _ _ _ _ _ _
+
+example : directionOk .stream true .uni = true ∧ directionOk .maxStreamData false .uni = true := by decide
+
+/-- At the endpoint: a peer-initiated stream id (legal direction) with an index above the limit in force is
+answered with STREAM_LIMIT_ERROR and nothing changes (the off-by-one of `peer_beyond_limit_rejected_fails`
+applies here too: index = limit is let through). -/
+theorem endpoint_limit_enforced_partial (e : Endpoint) (k : FrameKind) (s a b : Nat) (fin : Bool)
+    (hp : e.rem.poisoned = false) (hpeer : sidRole s = e.rem.role) (hne : sidRole s ≠ e.role)
+    (hd : directionOk k true (sidDir s) = true) (h : sidIdx s > e.rem.max.get (sidDir s)) :
+    e.step (.frame k s a b fin) = (e, .err .streamLimit) := by
+  have hb : (sidRole s != e.role) = true := by simpa using hne
+  have := direction_table_is_rfc k true (sidDir s)
+  rw [hd] at this
+  simp only [Endpoint.step, hb, this, if_true]
+  have hs := peer_beyond_limit_rejected_partial std e.rem s hp hpeer h
+  simp only [Endpoint.acceptSid, hs]
+
+/-- RFC 9000 §19.5/§19.8/§19.10 (STREAM / STOP_SENDING / MAX_STREAM_DATA for a locally initiated stream
+that has not yet been created ⇒ STREAM_STATE_ERROR) is NOT implemented: the frame is silently ignored
+(replayed on the real `DataStreams`: run `C12d`, monitor `not_yet_created:*`). -/
+theorem not_yet_created_rejected_fails :
+    ¬ (∀ (e : Endpoint) (k : FrameKind) (s a b : Nat) (fin : Bool), mustBeCreated k = true →
+        sidRole s = e.role → e.loc.role = e.role → sidIdx s ≥ e.loc.unalloc.get (sidDir s) →
+        (e.step (.frame k s a b fin)).2 = .err .streamState) := by
+  intro h
+  let e0 : Endpoint :=
+    { role := .client, loc := { role := .client, max := ⟨3, 3⟩ }, rem := Remote.new .server 3 3 .demand,
+      win := ⟨100, 100, 100⟩ }
+  have := h e0 .stream 0 0 5 false rfl (by decide) rfl (by decide)
+  have e : (e0.step (.frame .stream 0 0 5 false)).2 = .ok 0 [] := by decide
+  rw [e] at this; cases this
+
+/-! ## 5. Final size (RFC 9000 §4.5) -/
+
+/-- The final size the receiving part knows. -/
+def knownFinal (h : RecvHalf) : Option Nat :=
+  match h.phase with
+  | .sizeKnown fs => some fs
+  | _ => none
+
+/-- **final_size_rules**, STREAM frames: in every state in which the receiving part still exists
+(`Recv` / `SizeKnown`), the answer is FINAL_SIZE_ERROR exactly when RFC 9000 §4.5 says so — (a) a final size
+below data already received, (b) data beyond the known final size, (c) a different final size — and then
+nothing is changed. -/
+theorem final_size_rules_stream (h : RecvHalf) (off len : Nat) (fin : Bool) (hp : h.phase ≠ .done) :
+    ((h.rx true off len fin).2 = .finalSize ↔
+      streamFinalSizeError h.buf.largest (knownFinal h) off len fin = true) ∧
+    ((h.rx true off len fin).2 = .finalSize → (h.rx true off len fin).1 = h) := by
+  cases hph : h.phase with
+  | done => exact absurd hph hp
+  | recv =>
+    cases fin
+    · simp only [RecvHalf.rx, hph, streamFinalSizeError, knownFinal, Bool.false_eq_true, if_false, Bool.false_and]
+      split <;> simp
+    · simp only [RecvHalf.rx, hph, streamFinalSizeError, knownFinal, if_true, Bool.true_and]
+      split
+      · simp; omega
+      · split
+        · simp; omega
+        · split <;> simp <;> omega
+  | sizeKnown fs =>
+    simp only [RecvHalf.rx, hph, streamFinalSizeError, knownFinal]
+    split
+    · simp; left; omega
+    · split
+      · rename_i h2; simp; right; exact ⟨h2.1, h2.2⟩
+      · rename_i h1 h2
+        have : ¬ (off + len > fs) := h1
+        have key : fin = true → off + len = fs := by
+          intro hf
+          apply Classical.byContradiction
+          intro e
+          exact h2 ⟨hf, e⟩
+        split <;> simp <;> exact ⟨by omega, key⟩
+
+example : streamFinalSizeError 10 none 2 3 true = true ∧ streamFinalSizeError 10 (some 10) 8 5 false = true ∧
+    streamFinalSizeError 10 (some 10) 2 3 true = true ∧ streamFinalSizeError 10 (some 10) 2 8 true = false := by
+  decide
+
+/-- **final_size_rules**, RESET_STREAM: FINAL_SIZE_ERROR exactly when the final size is below what was
+received (`Recv`) or differs from the known final size (`SizeKnown`). -/
+theorem final_size_rules_reset (h : RecvHalf) (final : Nat) (hp : h.phase ≠ .done) :
+    resetRx h final = some .finalSize ↔ resetFinalSizeError h.largest (knownFinal h) final = true := by
+  cases hph : h.phase with
+  | done => exact absurd hph hp
+  | recv =>
+    simp only [resetRx, hph, resetFinalSizeError, knownFinal]
+    split <;> simp <;> omega
+  | sizeKnown fs =>
+    simp only [resetRx, hph, resetFinalSizeError, knownFinal]
+    split <;> simp <;> omega
+
+example : resetFinalSizeError 10 none 9 = true ∧ resetFinalSizeError 10 (some 12) 13 = true ∧
+    resetFinalSizeError 10 (some 12) 12 = false := by decide
+
+/-- The four clauses by name, as consequences (for readers of the property text). -/
+theorem final_size_smaller_than_received (h : RecvHalf) (off len : Nat) (hp : h.phase = .recv)
+    (hlt : off + len < h.buf.largest) : h.rx true off len true = (h, .finalSize) := by
+  have hne : h.phase ≠ .done := by rw [hp]; intro x; cases x
+  have ⟨h1, h2⟩ := final_size_rules_stream h off len true hne
+  have e : (h.rx true off len true).2 = .finalSize :=
+    h1.2 (by simp [streamFinalSizeError, knownFinal, hp, hlt])
+  exact Prod.ext (h2 e) e
+
+theorem data_beyond_final_size (h : RecvHalf) (off len fs : Nat) (fin : Bool) (hp : h.phase = .sizeKnown fs)
+    (hgt : off + len > fs) : h.rx true off len fin = (h, .finalSize) := by
+  have hne : h.phase ≠ .done := by rw [hp]; intro x; cases x
+  have ⟨h1, h2⟩ := final_size_rules_stream h off len fin hne
+  have e : (h.rx true off len fin).2 = .finalSize :=
+    h1.2 (by simp [streamFinalSizeError, knownFinal, hp, hgt])
+  exact Prod.ext (h2 e) e
+
+theorem final_size_changed (h : RecvHalf) (off len fs : Nat) (hp : h.phase = .sizeKnown fs)
+    (hne' : off + len ≠ fs) : h.rx true off len true = (h, .finalSize) := by
+  have hne : h.phase ≠ .done := by rw [hp]; intro x; cases x
+  have ⟨h1, h2⟩ := final_size_rules_stream h off len true hne
+  have e : (h.rx true off len true).2 = .finalSize :=
+    h1.2 (by simp [streamFinalSizeError, knownFinal, hp, hne'])
+  exact Prod.ext (h2 e) e
+
+theorem reset_with_different_size (h : RecvHalf) (final fs : Nat) (hp : h.phase = .sizeKnown fs)
+    (hne' : final ≠ fs) : resetRx h final = some .finalSize := by
+  have hne : h.phase ≠ .done := by rw [hp]; intro x; cases x
+  exact (final_size_rules_reset h final hne).2 (by simp [resetFinalSizeError, knownFinal, hp, hne'])
+
+example : ∃ h : RecvHalf, h.phase = .sizeKnown 10 ∧ h.buf.largest = 4 :=
+  ⟨(RecvHalf.mk0 100 |>.rx true 0 4 false).1 |>.rx true 10 0 true |>.1, by decide, by decide⟩
+
+/-- Once known, the final size never changes: over every further history of frames and reads the phase is
+`SizeKnown` with the SAME size, or the stream is complete. -/
+theorem final_size_stable (h : RecvHalf) (fs : Nat) (ops : List StreamWindow.ROp)
+    (hp : h.phase = .sizeKnown fs ∨ h.phase = .done) :
+    (ops.foldl (RecvHalf.step true) h).phase = .sizeKnown fs ∨ (ops.foldl (RecvHalf.step true) h).phase = .done := by
+  induction ops generalizing h with
+  | nil => exact hp
+  | cons op ops ih =>
+    apply ih
+    cases op with
+    | rx off len fin =>
+      simp only [RecvHalf.step, RecvHalf.rx]
+      rcases hp with hp | hp <;> simp only [hp]
+      · repeat' split
+        all_goals first | (left; first | exact hp | rfl) | (right; rfl)
+      · right; first | exact hp | rfl | trivial
+    | read cap =>
+      simp only [RecvHalf.step, RecvHalf.read]
+      rcases hp with hp | hp <;> simp only [hp]
+      · repeat' split
+        all_goals first | (left; first | exact hp | rfl) | (right; rfl)
+      · right; first | exact hp | rfl | trivial
+
+/-- At the endpoint: a STREAM frame that contradicts the final size of a stream still in the input set is
+answered with FINAL_SIZE_ERROR, whatever else is going on. -/
+theorem deliver_final_size (e : Endpoint) (ms : List (Dir × Nat)) (s off len : Nat) (fin : Bool) (h : RecvHalf)
+    (hl : lookup e.inputs s = some h) (hp : h.phase ≠ .done)
+    (hv : streamFinalSizeError h.buf.largest (knownFinal h) off len fin = true) :
+    e.deliver ms .stream s off len fin = (e, .err .finalSize) := by
+  have ⟨h1, _⟩ := final_size_rules_stream h off len fin hp
+  have e2 := h1.2 hv
+  simp only [Endpoint.deliver, hl]
+  cases hr : h.rx true off len fin with
+  | mk h' o =>
+    rw [hr] at e2
+    simp only at e2
+    subst e2
+    rfl
+
+theorem deliver_reset_final_size (e : Endpoint) (ms : List (Dir × Nat)) (s final : Nat) (h : RecvHalf)
+    (hl : lookup e.inputs s = some h) (hp : h.phase ≠ .done)
+    (hv : resetFinalSizeError h.largest (knownFinal h) final = true) :
+    (e.deliver ms .resetStream s final 0 false).2 = .err .finalSize := by
+  have e2 := (final_size_rules_reset h final hp).2 hv
+  simp only [Endpoint.deliver, hl, e2]
+
+end GmQuic.StreamRules
